@@ -21,6 +21,7 @@ ROOT = os.path.dirname(os.path.dirname(os.path.abspath(__file__)))
 AGG_SIGS = {
     "A": SIGS["A"], "B": SIGS["B"],
     "G": {"wat": None, "desc": "(x:record{f:u32})->_"},     # takes the used record type; rendered in place
+    "H": {"wat": None, "desc": "(x:own<res>)->_"},          # takes a handle of the used resource; rendered in place
 }
 
 fA, fB = ("func", "A"), ("func", "B")
@@ -103,6 +104,19 @@ def contributors():
     c.append({"imports": [(T1, types_rs), (I1, using(T1, types_rs, {"a": fA}))], "agg": [1]})      # 37
     # a version that differs from another one in build metadata only (appended: ids are quoted elsewhere)
     one((I, (0, 2, 1), "b2"), inst({"w": fA}))               # 38
+    # two functions of one signature: through two type definitions / through one shared definition
+    one(I0, inst({"a": fA, "e": fA}))                         # 39
+    one(I0, inst({"a": fA, "e": fA}))                         # 40 (rendered with a shared function type)
+    c[-1]["share"] = True
+    # a resource required on its own and through an interface that uses it
+    types_res = inst({"res": ("rtype", "RES")})
+    one(T0, types_res)                                         # 41
+    c.append({"imports": [(T0, types_res), (I0, inst({"res": ("rtype", "RES"), "take": ("func", "H")}, {"res": (T0, "res", types_res)}))],
+              "agg": [0, 1]})                                  # 42
+    c.append({"imports": list(c[-1]["imports"]), "agg": [1]})  # 43 only the user of the resource is aggregated
+    types_res1 = inst({"res": ("rtype", "RES"), "s": fA})
+    c.append({"imports": [(T1, types_res1), (I1, inst({"res": ("rtype", "RES"), "take": ("func", "H")}, {"res": (T1, "res", types_res1)}))],
+              "agg": [1]})                                     # 44 the same through a higher version of the owner
     for i, x in enumerate(c):
         x["id"] = i + 1
         x["e2e"] = x["agg"] == list(range(len(x["imports"])))
@@ -136,13 +150,15 @@ def tla_kind(k):
 
 RT = dict(RTYPES)
 RT["R2"] = {"wat": '(record (field "f" u64))', "desc": "record{f:u64}"}
+RT["RES"] = {"wat": None, "desc": "resource"}
 
 
 # ------------------------------------------------------------------ WAT
 class Comp:
-    def __init__(self):
+    def __init__(self, share=False):
         self.lines = []
         self.n = 0
+        self.share = share     # functions of one signature share a type definition
         self.handles = {}      # (interface name string, export) -> component-level type index name
 
     def fresh(self, p):
@@ -160,6 +176,9 @@ class Comp:
                     o, t = self.fresh("o"), self.fresh("u")
                     parts.append(f"(alias outer {depth} {src} (type {o}))")
                     parts.append(f'(export "{n}" (type {t} (eq {o})))')
+                elif v[1] == "RES":
+                    t = self.fresh("t")
+                    parts.append(f'(export "{n}" (type {t} (sub resource)))')
                 else:
                     raw, t = self.fresh("raw"), self.fresh("t")
                     parts.append(f"(type {raw} {RT[v[1]]['wat']})")
@@ -168,6 +187,18 @@ class Comp:
             elif v[0] == "func":
                 if v[1] == "G":
                     parts.append(f'(export "{n}" (func (param "x" {local["r"]})))')
+                elif v[1] == "H":
+                    # takes a handle of the (used) resource exported as `res`
+                    o = self.fresh("own")
+                    parts.append(f'(type {o} (own {local["res"]}))')
+                    parts.append(f'(export "{n}" (func (param "x" {o})))')
+                elif self.share:
+                    # one type definition for all functions of one signature in this instance type
+                    if v[1] not in local:
+                        ft = self.fresh("ft")
+                        parts.append(f'(type {ft} {AGG_SIGS[v[1]]["wat"]})')
+                        local[v[1]] = ft
+                    parts.append(f'(export "{n}" (func (type {local[v[1]]})))')
                 else:
                     parts.append(f'(export "{n}" {AGG_SIGS[v[1]]["wat"]})')
             else:
@@ -204,7 +235,7 @@ def emit():
         f.write("\n".join(t) + "\n")
     data = {"sigs": {v["desc"]: k for k, v in AGG_SIGS.items()}, "contributors": []}
     for c in cs:
-        w = Comp()
+        w = Comp(share=c.get("share", False))
         for n, k in c["imports"]:
             w.add_import(n, k)
         data["contributors"].append({"id": c["id"], "wat": w.text(), "imports": [name_str(n) for n, _ in c["imports"]],
